@@ -11,6 +11,9 @@ import FordModel.TypeSpec
 import FordModel.Lemmas.TypeSpec
 import FordModel.Lemmas.TypeSpecChar
 import FordModel.Generated.C01TypeSpec
+import FordModel.Mask
+import FordModel.MaskSpec
+import FordModel.Lemmas.Mask
 namespace Ford.C01
 open Ford.Parse
 
@@ -300,5 +303,85 @@ example :
     (parseType "character(*, ck), intent(in) :: s".toList).toOption
       = some { vartype := kwChar, rest := ", intent(in) :: s".toList, kind := some "ck".toList, strlen := some ['*'] } := by
   decide
+/-! ### string literals are masked before the cascade and put back afterwards (`QUOTES_RE`, character level) -/
+
+open Ford.Mask in
+/-- **Masking captures exactly the declared literals, in order.**  For every statement made of plain text
+    pieces and any number of character literals - either delimiter, any contents (also contents that look like
+    the internal placeholders `"0"`, `"1"`, ..., doubled delimiters, the other quote character, `!`, `;`, `&`),
+    the same literal any number of times - in which two literals are separated by at least one character, the
+    masking loop of `FortranContainer.__init__` terminates without error, `self.strings` is the list of the
+    literals as written, in source order, and the masked line is the statement with the i-th literal replaced
+    by `"i"` and every other character untouched. -/
+theorem mask_literals_in_order (segs : List (Str × Lit)) (tail : Str)
+    (hw : wfSegs true segs = true) (ht : noQuote tail = true) :
+    mask (render segs tail) = .ok (renderMasked 0 segs tail, litTexts segs) :=
+  mask_segs segs tail hw ht
+
+open Ford.Mask in
+/-- **Placeholders are replaced by the captured literal of that number.**  For every text with any number of
+    placeholders `"k"` (any order, repeated, any subset of the captured literals: the initial value of one
+    entity of a declaration is such a fragment of the masked line), every `k` below the number of captured
+    literals, the loop of `line_to_variables` terminates without error and yields the text with each `"k"`
+    replaced by the (transformed) k-th captured literal and every other character untouched; `g` is any
+    transformation that leaves quote characters where they are. -/
+theorem restore_placeholders (g : Str → Str) (hg : QuoteNeutral g) (lits : List Lit)
+    (hl : ∀ l ∈ lits, isQuote l.q = true) (items : List (Str × Nat)) (tail : Str)
+    (hw : wfItems lits.length true items = true) (ht : noQuote tail = true) :
+    restore g (renderPh items tail) (lits.map Lit.text) = .ok (renderBack g (lits.map Lit.text) items tail) :=
+  restore_items g hg lits hl items tail hw ht
+
+open Ford.Mask in
+/-- **Masking is transparent.**  Restoring the masked statement with the captured strings gives back the
+    statement as declared, character for character; with the transformation `line_to_variables` applies
+    (`NBSP_RE`) the only characters that change are blanks inside literals.  Hence the reported text of a
+    literal never depends on its delimiter, its contents or its position in the statement. -/
+theorem mask_restore_roundtrip (segs : List (Str × Lit)) (tail : Str)
+    (hw : wfSegs true segs = true) (ht : noQuote tail = true) :
+    ∃ m strs, mask (render segs tail) = .ok (m, strs) ∧
+      restore id m strs = .ok (render segs tail) ∧
+      restore nbsp m strs = .ok (renderG nbsp segs tail) := by
+  refine ⟨_, _, mask_segs segs tail hw ht, ?_, mask_then_restore nbsp nbsp_neutral segs tail hw ht⟩
+  rw [mask_then_restore id id_neutral segs tail hw ht, renderG_id]
+
+open Ford.Mask in
+/-- the transformation `line_to_variables` applies to a captured literal (`NBSP_RE.sub`) meets the hypothesis
+    of `restore_placeholders`: it leaves every quote character in place -/
+theorem nbsp_keeps_quotes : QuoteNeutral nbsp := nbsp_neutral
+
+/-- `QUOTES_RE`, `NBSP_RE` and the statements of the two loops in the current source are the ones
+    `Mask.scanBody`/`search`, `Mask.nbsp`, `Mask.maskLoop` and `Mask.restoreLoop` mirror (regenerated from the
+    source on every run). -/
+theorem mask_source_as_modelled :
+    Generated.C01.quotesRe = "\\\"([^\\\"]|\\\"\\\")*\\\"|'([^']|'')*'" ∧
+    Generated.C01.nbspRe = " (?= )|(?<= ) " ∧
+    Generated.C01.maskLoop =
+      ["self.strings = []",
+       "search_from = 0",
+       "while (quote := QUOTES_RE.search(line[search_from:])):",
+       "    self.strings.append(quote.group())",
+       "    line = line[0:search_from] + QUOTES_RE.sub(f'\"{len(self.strings) - 1}\"', line[search_from:], count=1)",
+       "    search_from += QUOTES_RE.search(line[search_from:]).end(0)"] ∧
+    Generated.C01.restoreLoop =
+      ["while (quote := QUOTES_RE.search(initial[search_from:])):",
+       "    num = int(quote.group()[1:-1])",
+       "    string = NBSP_RE.sub('\\xa0', parent.strings[num])",
+       "    string = string.replace('\\\\', '\\\\\\\\')",
+       "    initial = initial[0:search_from] + QUOTES_RE.sub(string, initial[search_from:], count=1)",
+       "    search_from += QUOTES_RE.search(initial[search_from:]).end(0)"] := by decide
+
+open Ford.Mask in
+/-- non-vacuity: `bits(2) = ["1", "0"]`, a statement whose second literal looks like the first placeholder,
+    meets the hypotheses; the model computes the masked line, the captured strings and the round trip.  The
+    separation hypothesis is needed: two literals written without anything between them (not Fortran) are
+    captured as one. -/
+example :
+    let segs : List (Str × Lit) := [((chars! "bits(2) = ["), ⟨'"', ['1']⟩), ((chars! ", "), ⟨'"', ['0']⟩)]
+    wfSegs true segs = true ∧ render segs [']'] = (chars! "bits(2) = [\"1\", \"0\"]") ∧
+    (mask (chars! "bits(2) = [\"1\", \"0\"]")).toOption
+      = some ((chars! "bits(2) = [\"0\", \"1\"]"), [(chars! "\"1\""), (chars! "\"0\"")]) ∧
+    (restore id (chars! "bits(2) = [\"0\", \"1\"]") [(chars! "\"1\""), (chars! "\"0\"")]).toOption
+      = some (chars! "bits(2) = [\"1\", \"0\"]") ∧
+    (mask (chars! "'a'\"b\"")).toOption = some ((chars! "\"0\"\"b\""), [(chars! "'a'")]) := by decide
 
 end Ford.C01
